@@ -28,10 +28,10 @@ func (Engine) Name() string { return "E7-conc" }
 // Runs implements core.Engine.
 func (Engine) Runs(prop, tier string) int {
 	if tier == "thorough" {
-		return 240000
+		return 160000
 	}
 
-	return 6400
+	return 4000
 }
 
 // RaceLogPrefix is the GORACE log_path the workers run with.
